@@ -62,6 +62,11 @@ func runC04(t *testing.T, seed uint64, m *Mask) *Report {
 		if len(op.Data) > 100 {
 			op.Data = op.Data[:100]
 		}
+		if op.AcceptCodec != 0 && r.Chance(0.5) {
+			// the caller wishes for a codec the answering side does not have: the documented fall-back is the
+			// codec of the request, so the outcome is the one the handler produced
+			op.AcceptCodec = []byte{200, 255, 1}[r.Intn(3)]
+		}
 		if ws {
 			op.Pipe = nil
 		}
